@@ -6,6 +6,7 @@ import (
 	"go/token"
 	"go/types"
 	"os"
+	"path/filepath"
 	"runtime/debug"
 	"sort"
 	"strings"
@@ -75,8 +76,11 @@ type Engine struct {
 	panicsOff   bool // inside spec code marked with vSpecBegin/End: panics still recorded
 	expectPanic map[string]bool
 	initDone    map[*ssa.Package]bool
+	verifInitDone map[*ssa.Package]bool
 	tolerant    int // >0 while executing package init code
 	selectN     int
+	onlyVerifInit bool
+	hookDepth, hookLimit int
 	abstractBig bool
 	shadow      map[string]int64  // high-level nondet values to follow (debug)
 	shadowAsg   map[string]uint64 // solver-variable assignment derived from shadow
@@ -502,6 +506,46 @@ func (fr *frame) execBlock(b *ssa.BasicBlock) {
 		fr.set(phi, g, phiVals[i])
 	}
 	for _, ins := range b.Instrs[len(phis):] {
+		if fr.e.onlyVerifInit && fr.fn.Name() == "init" {
+			// harness-package initialiser: only the initialisers written in harness files are executed
+			switch ins.(type) {
+			case *ssa.If, *ssa.Jump, *ssa.Return:
+				if iff, ok := ins.(*ssa.If); ok {
+					// the init guard: take the "not yet initialised" branch
+					_ = iff
+					fr.addEdge(b.Succs[1], b, g)
+					continue
+				}
+			default:
+				if ins.Pos().IsValid() {
+					if bn := filepath.Base(fr.e.fset.Position(ins.Pos()).Filename); !strings.HasPrefix(bn, "zz_verif") || bn == "zz_verif_api.go" {
+						continue
+					}
+				}
+				if c, ok := ins.(*ssa.Call); ok {
+					if f := c.Call.StaticCallee(); f != nil && f.Name() == "init" {
+						continue // initialisers of other packages
+					}
+				}
+				// instructions that depend on skipped ones are skipped too
+				okInstr := func() (ok bool) {
+					defer func() {
+						if r := recover(); r != nil {
+							ok = false
+						}
+					}()
+					fr.bad = nil
+					curGuard = g
+					g = fr.execInstr(b, ins, g)
+					return true
+				}()
+				_ = okInstr
+				if g == False {
+					return
+				}
+				continue
+			}
+		}
 		fr.bad = nil
 		curGuard = g
 		gBefore := g
